@@ -315,6 +315,27 @@ def s2b(ctx, rep):
                   "a result for a later bracket moves the primary pointer: the open primary bracket is skipped")
 
 
+def s6b(ctx, rep):
+    """a trial can be resumed by promotion as long as its bracket lives - including a failed one when a rung has too few
+    valid results - so nothing may remove its configuration from the scheduler's record"""
+    from ..core.facts import MUTATORS
+    P = ctx.P
+    for cname, attr in (("SynchronousHyperbandScheduler", "_trial_to_config"),):
+        c = P.cls(cname)
+        rm = []
+        for k in P.all_subclasses(c, strict=False):
+            for m in k.methods.values():
+                for x in walk_shallow(m.node):
+                    if isinstance(x, ast.Call) and isinstance(x.func, ast.Attribute) and x.func.attr in ("pop", "popitem", "clear") \
+                            and U(x.func.value) == "self." + attr:
+                        rm.append((m, x))
+                    if isinstance(x, ast.Delete) and any(isinstance(t, ast.Subscript) and U(t.value) == "self." + attr for t in x.targets):
+                        rm.append((m, x))
+        rep.put(not rm, "S6", "who_may_write", f"{cname}.{attr}: no configuration is ever removed", c, rm[0][1] if rm else None, "",
+                f"{rm[0][0].short if rm else ''} removes an entry: a failed trial that get_top_list still promotes (too few valid results in the rung) "
+                "is resumed by _suggest, which looks its configuration up - KeyError, the slot is never filled and the bracket waits for ever")
+
+
 def s9(ctx, rep):
     """the top list of a completed rung is cut to the size of the rung above it: get_top_list(rung = rungs[k - 1],
     new_len = size of rungs[k]) at every call site"""
@@ -368,6 +389,7 @@ def run(ctx, rep, tier="quick"):
     s1b(ctx, rep)
     s2(ctx, rep)
     s2b(ctx, rep)
+    s6b(ctx, rep)
     s3(ctx, rep)
     s4_s5(ctx, rep)
     s6(ctx, rep)
